@@ -19,6 +19,7 @@ def scenario(hist, entry, rng):
                 hist.t.setdefault("not_advertised", []).append(key)     # only advertised keys are part of the claim
                 continue
             hist.set(a, {key: thunk()})
+    peek_others(hist, [a, b], a)
     # several keys at once (a nested one together with a plain one when available)
     if len(entry.sets) >= 2:
         (k1, a1), (k2, a2) = entry.sets[0], entry.sets[-1]
@@ -46,6 +47,14 @@ def scenario(hist, entry, rng):
             if ok:
                 for m in entry.methods:
                     hist.obs(o, m, X, "BehavesIdentically", note="after cross-feed / clone")
+
+
+def peek_others(hist, pop, touched):
+    """configuring one instance leaves every other instance alone: their reports are read again (a `call` of kind
+    'peek' does nothing; the specification compares the report with the view it keeps for that object)"""
+    for o in pop:
+        if o is not touched:
+            hist.call(o, "peek", lambda: None, [])
 
 
 def random_history(hist, entry, rng, length):
@@ -86,6 +95,8 @@ def random_history(hist, entry, rng, length):
             hist.crossfeed(a, b)
         elif op == "self":
             hist.crossfeed(a, a)
+        if op in ("set", "multi", "self"):
+            peek_others(hist, pop, a)
 
 
 def classify(t, v):
